@@ -24,7 +24,7 @@ EXPLANATION = (
     "contiguity check, non-mutation of the module-level radii table, the area formula's literals, and positional agreement "
     "of the arguments across the Python / Cython / C boundary against the real C prototype.")
 NOT_DECIDED = ["quadrature accuracy of the golden-spiral point set (numerical)", "analytic cap areas of overlapping spheres (numerical)"]
-ASSUMPTIONS = ["documented: area of an isolated atom = 4*pi*(r+probe)^2; unselected atoms / residues without selected atoms are reported as -1"]
+ASSUMPTIONS = ["radii are positive (a bound M >= R_j then gives (R_i + R_j)^2 <= (R_i + M)^2)", "documented: area of an isolated atom = 4*pi*(r+probe)^2; unselected atoms / residues without selected atoms are reported as -1"]
 FLOORS = {"C13-R1": 1, "C13-R2": 20, "C13-R3": 2, "C13-R4": 50, "C13-R5": 3}
 
 SP = "mdtraj/geometry/sasa.py"
@@ -382,12 +382,61 @@ def asa_frame_by_value(ctx, cf):
             elif init and init[0].get("kind") == "BinaryOperator":
                 lvs.add(C.ref_name(C.kids(init[0])[0]))
     body = C.kids(C.body_of(af))
-    outer = [n for n in body if n["kind"] == "ForStmt"]
+    tops = [n for n in body if n["kind"] == "ForStmt"]
+    # the loop over the target atoms is the one that has loops inside; a loop of its own before it may accumulate a bound used as a quick
+    # rejection (a running maximum of the radii): it is summarised as "M >= radii[k] for every k it ran over", shown for one generic iteration
+    outer = [n for n in tops if any(x_["kind"] == "ForStmt" and x_ is not n for x_ in C.walk(n))]
     if len(outer) != 1:
-        raise AnalysisError("asa_frame: one outer loop over the atoms expected, %d found" % len(outer))
+        raise AnalysisError("asa_frame: one loop nest over the atoms expected, %d found" % len(outer))
+    prep = [n for n in tops if n is not outer[0]]
     ex = SymExec(cf, SC, symbolic_loops=lvs)
+    summaries = {}      # accumulator -> (symbol after the loop, first index, bound text)
     try:
-        states = ex.run(body, State())
+        st0 = State()
+        for stmt in body:
+            if stmt is outer[0]:
+                break
+            if stmt in prep:
+                parts_ = [x for x in stmt.get("inner", []) if isinstance(x, dict) and "kind" in x]
+                init_, cond_, lbody_ = parts_[0], parts_[-3] if len(parts_) >= 4 else None, parts_[-1]
+                kv = next((v for v in C.kids(init_) if v["kind"] == "VarDecl"), None) if init_.get("kind") == "DeclStmt" else None
+                if kv is None or not C.kids(kv) or cond_ is None:
+                    raise AnalysisError("asa_frame: a loop before the atom loop has a header the rule does not read")
+                lo = ex.expr(C.kids(kv)[-1], State())
+                k_ = Rat(Poly.var(kv.get("name")))
+                bound = re.sub(r"\s", "", C.text(cond_))
+                written = {C.ref_name(C.kids(x_)[0]) for x_ in C.walk(lbody_) if x_["kind"] in ("BinaryOperator", "CompoundAssignOperator") and x_.get("opcode", "").endswith("=") and x_.get("opcode") not in ("==", "!=", "<=", ">=")
+                           and C.strip(C.kids(x_)[0]).get("kind") == "DeclRefExpr"}
+                written = {w_ for w_ in written if w_ in st0.env}
+                if len(written) != 1:
+                    raise AnalysisError("asa_frame: the loop before the atom loop carries %s (one accumulator expected)" % sorted(written))
+                acc = next(iter(written))
+                sin = State()
+                sin.env.update(st0.env)
+                sin.env[kv.get("name")] = k_
+                m_in = Rat(Poly.var(acc + "@in"))
+                sin.env[acc] = m_in
+                elem = Rat(Poly.var("%s[%s]" % (radii, kv.get("name"))))
+                dominated = True
+                for o_ in ex.run(C.kids(lbody_) if lbody_.get("kind") == "CompoundStmt" else [lbody_], sin):
+                    fs_ = []
+                    for (v_, pol_), (txt_, _p) in zip(o_.cexprs, o_.cvals):
+                        fs_ += elementary_facts(ex, v_ if v_ is not None else txt_, pol_)
+                    m_out = o_.env.get(acc)
+                    ge_elem = m_out == elem or has_fact(fs_, "<=", elem - m_out) or has_fact(fs_, "<", elem - m_out)
+                    ge_in = m_out == m_in or has_fact(fs_, "<=", m_in - m_out) or has_fact(fs_, "<", m_in - m_out)
+                    dominated = dominated and ge_elem and ge_in
+                if not dominated:
+                    raise AnalysisError("asa_frame: the loop before the atom loop is not a running maximum of %s (no summary)" % radii)
+                after = Rat(Poly.var(acc + "@max"))
+                summaries[acc] = (after, lo, bound, kv.get("name"))
+                st0.env[acc] = after
+                continue
+            r_ = ex.run([stmt], st0)
+            if len(r_) != 1:
+                raise AnalysisError("asa_frame: the statements before the atom loop branch")
+            st0 = r_[0]
+        states = ex.run(body[body.index(outer[0]):], st0)
     except Unsupported as e:
         for r_ in ("C13-R2", "C13-R3", "C13-R4", "C13-R5"):
             ctx.undecided(r_, C.line(af), SC, q, "value numbering of asa_frame", str(e))
@@ -446,6 +495,19 @@ def asa_frame_by_value(ctx, cf):
             if is_stored and not (near and diff):
                 bad = bad or "a path records j as a blocker without having established j != i and |x_i - x_j|^2 < (R_i + R_j)^2 (conditions on the path: %s)" % [t for t, _p in st.cvals][:4]
             if not is_stored and not (same or far):
+                # a quick rejection by a bound accumulated before the loop: |x_i - x_j|^2 >= (R_i + M)^2 with M >= R_k for every k the
+                # accumulation ran over implies the far case for every such j (radii are positive)
+                lemma = None
+                for acc_, (M_, lo_, bound_, kn_) in summaries.items():
+                    cutM = (R(i) + M_) * (R(i) + M_)
+                    if has_fact(f, "<=", cutM - D):
+                        covers = lo_.const_value() == 0 and bound_ == "(%s<%s)" % (kn_, n_atoms)
+                        lemma = True if covers else "the bound `%s` used to reject j early is the largest radius among the atoms %s .. only (loop %s from %s): an atom outside that range can be a blocker that is skipped" % (acc_, lo_, bound_, lo_)
+                if lemma is True:
+                    continue
+                if isinstance(lemma, str):
+                    bad = bad or lemma
+                    continue
                 bad = bad or "a path leaves j out although neither j == i nor |x_i - x_j|^2 >= (R_i + R_j)^2 holds on it (conditions: %s)" % [(t[:60], p_) for t, p_ in st.cvals][:4]
 
             def flat(fs):
